@@ -319,7 +319,9 @@ pub fn gen_history(cfg: &Config, run_seed: u64) -> Vec<Op> {
     if cfg.batch_law == 10 {
         // A huge world: more than 65536 identifier slots (two batches of one-component entities),
         // a few removals, and a round trip in a token encoding.
-        let sites: Vec<usize> = (0..g::EXTEND_SITES.len()).filter(|s| g::EXTEND_SITES[*s].1.len() == 1).collect();
+        // (small components without heap storage: 200 000 boxed or 384-byte values, copied a few times,
+        // would not fit the simulator's arena)
+        let sites: Vec<usize> = (0..g::EXTEND_SITES.len()).filter(|s| g::EXTEND_SITES[*s].1.len() == 1 && ![2u8, 3, 5, 8].contains(&g::EXTEND_SITES[*s].1[0])).collect();
         if !sites.is_empty() {
             // 66 000 - 80 000 slots, or (one in three) 196 605: beyond 16 bits resp. beyond 2^17.
             if rng.chance(1, 3) {
